@@ -27,10 +27,10 @@ def gen_case(rng, idx, quick=True):
     kinds = rng.sample(KINDS, ncols)
     if idx < len(KINDS):
         kinds = [KINDS[idx]] + kinds[1:]
-    if B3 + 5 <= idx < B3 + 7:
-        # the two multi-index cases: no categorical DATA column next to a MultiIndex - that combination corrupts the frame read back
-        # (known finding C01-multiindex-with-categorical; exercised in a forked child by c01.isolated_feature_cases)
-        kinds = [k for k in kinds if not k.startswith("cat")] or ["int64"]
+    if B3 + 5 <= idx < B3 + 7 and not any(k.startswith("cat") for k in kinds):
+        # the two multi-index cases hold a categorical data column as well (the combination that corrupted the frame read back
+        # before repo fix 1a57786; also exercised in a forked child by c01.isolated_feature_cases)
+        kinds = kinds[:-1] + ["cat_str"] if len(kinds) > 1 else kinds + ["cat_str"]
     # directed lattice: every time kind x every has_nulls mode, with missing instants present
     TIME = ["dt_s", "dt_ms", "dt_us", "dt_ns", "td"]
     forced_hn = None
